@@ -564,6 +564,95 @@ func checkC05(c *Ctx) {
 	// in the bytes the other direction is about to write.
 	checkPrivateRelayBuffer(c, "C05.11")
 
+	// ---- C05.12 the relay's DTLS client connection: (a) its Close always closes the transport under it - whatever the
+	// stream's own Close answered - so that "both connections are closed, no goroutine left behind" also holds when the
+	// peer left first; (b) a deadline armed on a connection from the handshake context is cleared on that same
+	// connection on every successful return (a leftover absolute deadline fails the healthy tunnel seconds later)
+	r.Rule("C05.12", "SCTPConn.Close always closes the transport under it; handshake deadlines are cleared on the connection they were set on", 2)
+	if f := c.fn("C05.12", "pkg/dtls", "SCTPConn", "Close"); f != nil {
+		found, okk := false, true
+		for _, ff := range withAnon(f) {
+			eachInstr(ff, func(in ssa.Instruction) {
+				call, ok := in.(*ssa.Call)
+				if !ok || !call.Call.IsInvoke() || call.Call.Method.Name() != "Close" || !strings.HasSuffix(pathOf(call.Call.Value), ".conn") {
+					return
+				}
+				found = true
+				if !unconditional(ff, in) {
+					okk = false
+				}
+			})
+		}
+		r.Check(found && okk, "C05.12", "SCTPConn.Close: the underlying connection is closed on every path", f.Pos(), fnName(f), "s.conn.Close() is reached whatever any condition says",
+			"SCTPConn.Close can return without closing the DTLS / UDP transport under it (e.g. when the stream's Close fails because the association is already gone): the relay's teardown leaves the transport and its read goroutines open for good")
+	}
+	nArmed := 0
+	for _, f := range c.funcsOfPkgs("pkg/dtls") {
+		if f.Blocks == nil || strings.Contains(r.posStr(f.Pos()), "_test") {
+			continue
+		}
+		nm := f.Name()
+		armed := map[string]ssa.Instruction{}
+		eachInstr(f, func(in ssa.Instruction) {
+			call, ok := in.(*ssa.Call)
+			if !ok || !call.Call.IsInvoke() || call.Call.Method.Name() != "SetDeadline" {
+				return
+			}
+			if strings.Contains(pathOf(call.Call.Args[0]), ".Deadline()") {
+				armed[pathOf(call.Call.Value)] = in
+			}
+		})
+		nArmed += len(armed)
+		for conn, arm := range armed {
+			conn := conn
+			isClear := func(in ssa.Instruction) bool {
+				call, ok := in.(*ssa.Call)
+				if !ok || !call.Call.IsInvoke() || call.Call.Method.Name() != "SetDeadline" || pathOf(call.Call.Value) != conn {
+					if ok && !call.Call.IsInvoke() {
+						// a helper of the package that clears the deadline of the connection it is handed
+						if hc := helperCallee(f, &call.Call); hc != nil {
+							for i, a := range call.Call.Args {
+								if pathOf(a) != conn || i >= len(hc.Params) {
+									continue
+								}
+								hit := false
+								eachInstr(hc, func(in2 ssa.Instruction) {
+									if c2, ok := in2.(*ssa.Call); ok && c2.Call.IsInvoke() && c2.Call.Method.Name() == "SetDeadline" && c2.Call.Value == ssa.Value(hc.Params[i]) && isZeroTime(c2.Call.Args[0]) {
+										hit = true
+									}
+								})
+								if hit {
+									return true
+								}
+							}
+						}
+					}
+					return false
+				}
+				return isZeroTime(call.Call.Args[0])
+			}
+			isOK := func(in ssa.Instruction) bool {
+				ret, ok := in.(*ssa.Return)
+				if !ok || len(ret.Results) != 2 {
+					return false
+				}
+				cst, isC := returnedValue(ret, 1, nil).(*ssa.Const)
+				return isC && cst.Value == nil
+			}
+			left, w := reach(f, arm, isOK, isClear, nil)
+			if left {
+				r.Bad("C05.12", nm+": the handshake deadline on "+conn+" is cleared before a successful return", arm.Pos(), fnName(f),
+					"a successful return is reachable with the context's absolute deadline still armed on "+conn+": a few seconds into the tunnel its reads time out, the DTLS connection is closed and the rest of the client's stream is lost although both peers are alive", r.blockPath(f, w)...)
+			} else {
+				r.OK("C05.12", nm+": the handshake deadline on "+conn+" is cleared before a successful return", arm.Pos(), "SetDeadline(time.Time{}) on the same connection on every path to a nil-error return")
+			}
+		}
+	}
+
+	if nArmed == 0 {
+		r.Unk("C05.12", "pkg/dtls: deadline armed from the handshake context", token.NoPos, "", "no SetDeadline(ctx.Deadline()) found in the package")
+	}
+
 	// ---- C05.10 the open-session gauge is a count, not an epoch statistic: it moves by +1 / -1 in addSession /
 	// removeSession only; nothing stores into it and nothing overwrites the statistics object as a whole
 	r.Rule("C05.10", "the session gauge is changed only by the +1 / -1 of addSession / removeSession", 2)
@@ -1130,4 +1219,28 @@ func checkPrivateRelayBuffer(c *Ctx, rule string) {
 		}
 	}
 
+}
+
+// isZeroTime: v is the zero time.Time (the composite literal time.Time{}).
+func isZeroTime(v ssa.Value) bool {
+	switch x := v.(type) {
+	case *ssa.Const:
+		return true
+	case *ssa.UnOp:
+		if a, ok := x.X.(*ssa.Alloc); ok && x.Op == token.MUL {
+			// a local time.Time that is never stored to
+			if a.Referrers() != nil {
+				for _, ref := range *a.Referrers() {
+					if st, ok := ref.(*ssa.Store); ok && st.Addr == ssa.Value(a) {
+						return false
+					}
+					if _, isFA := ref.(*ssa.FieldAddr); isFA {
+						return false
+					}
+				}
+			}
+			return true
+		}
+	}
+	return false
 }
